@@ -395,7 +395,10 @@ fn propose(g: &Value, donor: &Value, donor2: &Value, vocab: &[String], hot: &Opt
             let (p, _) = cand[r.below(cand.len())].clone();
             let key = p.iter().rev().find(|k| k.parse::<usize>().is_err()).cloned().unwrap_or_default();
             let t = get(g, &p)?;
-            let value = if key == "currency" {
+            let value = if t.as_str().is_some_and(|x| x.chars().count() == 1) && r.chance(1, 2) {
+                // a one-character member (a `char` in the typed message: indicators, marks, signs) stays one character
+                s(r.pick(&["A", "C", "D", "N", "R", "X", "Y", "0", "1", " "]))
+            } else if key == "currency" {
                 s(r.pick(CUR))
             } else if key.contains("code") || key == "debit_credit_mark" || key == "message_type" || key == "indicator" || key == "sign" || key == "mark" {
                 s(r.pick(CODES))
